@@ -84,5 +84,19 @@ k("K73", "C04", "segment/decode.go", "\t\theader.UncompressedPayloadLength = int
 k("K74", "C04", "primitive/values.go", "\t} else if length < 0 {\n\t\treturn nil, fmt.Errorf(\"invalid [value] length: %v\", length)\n", "\t} else if length < -3 {\n\t\treturn nil, fmt.Errorf(\"invalid [value] length: %v\", length)\n",
   "nonneg-size:primitive.ReadValue")
 
+# ---- C13
+k("K17", "C13", "datacodec/conversions.go", "func int64ToInt16(val int64) (int16, error) {\n\tif val < math.MinInt16 || val > math.MaxInt16 {", "func int64ToInt16(val int64) (int16, error) {\n\tif val < math.MinInt32 || val > math.MaxInt32 {",
+  "narrowing:datacodec.int64ToInt16", "range check with the wrong bounds")
+k("K19", "C13", "datacodec/conversions.go", "func uint32ToInt32(val uint32) (int32, error) {\n\tif val > math.MaxInt32 {\n\t\treturn 0, errValueOutOfRange(val)\n\t} else {\n\t\treturn int32(val), nil\n\t}\n}", "func uint32ToInt32(val uint32) (int32, error) {\n\treturn int32(val), nil\n}",
+  "narrowing:datacodec.uint32ToInt32", "range test deleted")
+k("K75", "C13", "datacodec/conversions.go", "func int64ToUint32(val int64) (uint32, error) {\n\tif val < 0 || val > math.MaxUint32 {", "func int64ToUint32(val int64) (uint32, error) {\n\tif val > math.MaxUint32 {",
+  "narrowing:datacodec.int64ToUint32", "lower bound dropped")
+k("K76", "C13", "datacodec/conversions.go", "\tif !val.IsInt64() || val.Int64() < math.MinInt16 || val.Int64() > math.MaxInt16 {", "\tif !val.IsInt64() || val.Int64() < math.MinInt16 {",
+  "narrowing:datacodec.bigIntToInt16", "upper bound dropped on a big.Int source")
+k("K77", "C13", "datacodec/conversions.go", "\tif float64(float32(val)) != val {\n\t\treturn 0, errValueOutOfRange(val)\n\t} else {\n\t\treturn float32(val), nil\n\t}", "\treturn float32(val), nil",
+  "narrowing:datacodec.float64ToFloat32", "float narrowing without the round-trip test")
+k("K78", "C13", "datacodec/conversions.go", "\tif parsed, err := strconv.ParseInt(val, 10, 16); err != nil {", "\tif parsed, err := strconv.ParseInt(val, 10, 32); err != nil {",
+  "narrowing:datacodec.stringToInt16", "parse width wider than the target")
+
 json.dump(C, open(os.path.join(os.path.dirname(os.path.abspath(__file__)), "controls.json"), "w"), indent=1)
 print(len(C), "controls")
